@@ -271,20 +271,24 @@ class ModelCacheMixin:
             if m.eval_constraints(extra_constraints):
                 yield m
 
-    def _get_batch_solutions(self, asts, n=None, extra_constraints=(), allow_unconstrained=True):
+    def _get_batch_solutions(self, asts, n=None, extra_constraints=(), allow_unconstrained=True, skipped=None):
         results = set()
 
         for m in self._get_models(extra_constraints):
             try:
                 results.add(m.eval_list(asts, allow_unconstrained=allow_unconstrained))
             except (ZeroDivisionError, KeyError):
+                # this model cannot be evaluated concretely (e.g. it divides by zero, which the solver gives a value):
+                # the values read from the cache are then not known to be all the values the models witness
+                if skipped is not None:
+                    skipped.append(m)
                 continue
             if len(results) == n:
                 break
 
         return results
 
-    def _get_solutions(self, e, n=None, extra_constraints=(), allow_unconstrained=True):
+    def _get_solutions(self, e, n=None, extra_constraints=(), allow_unconstrained=True, skipped=None):
         return tuple(
             v[0]
             for v in self._get_batch_solutions(
@@ -292,6 +296,7 @@ class ModelCacheMixin:
                 n=n,
                 extra_constraints=extra_constraints,
                 allow_unconstrained=allow_unconstrained,
+                skipped=skipped,
             )
         )
 
@@ -305,10 +310,11 @@ class ModelCacheMixin:
         return super().satisfiable(extra_constraints=extra_constraints, exact=exact)
 
     def batch_eval(self, asts, n, extra_constraints=(), exact=None):
-        results = self._get_batch_solutions(asts, n=n, extra_constraints=extra_constraints)
+        skipped = []
+        results = self._get_batch_solutions(asts, n=n, extra_constraints=extra_constraints, skipped=skipped)
 
         if len(results) == n or (
-            len(extra_constraints) == 0 and len(asts) == 1 and asts[0].hash() in self._eval_exhausted
+            len(extra_constraints) == 0 and len(asts) == 1 and asts[0].hash() in self._eval_exhausted and not skipped
         ):
             # the exhaustion marks only speak about the constraints themselves, not about extra constraints
             return results
@@ -356,7 +362,10 @@ class ModelCacheMixin:
         if len(extra_constraints) == 0 and (e.hash() in self._eval_exhausted or e.hash() in exhausted):
             # cached models are kept only while they satisfy the constraints with absent variables defaulted (that is
             # how _add revalidates them and how eval() enumerated the values), so they must be read the same way here
-            cached = self._get_solutions(e, extra_constraints=extra_constraints)
+            skipped = []
+            cached = self._get_solutions(e, extra_constraints=extra_constraints, skipped=skipped)
+            if skipped:
+                cached = []
 
         if len(cached) > 0:
 
@@ -374,7 +383,10 @@ class ModelCacheMixin:
         cached = []
         exhausted = self._max_signed_exhausted if signed else self._max_exhausted
         if len(extra_constraints) == 0 and (e.hash() in self._eval_exhausted or e.hash() in exhausted):
-            cached = self._get_solutions(e, extra_constraints=extra_constraints)
+            skipped = []
+            cached = self._get_solutions(e, extra_constraints=extra_constraints, skipped=skipped)
+            if skipped:
+                cached = []
 
         if len(cached) > 0:
 
